@@ -105,6 +105,7 @@ def main():
     finally:
         sh("git checkout -- . && git clean -fdq -- . ", "/repo")
         shutil.rmtree(os.path.join(ROOT, "replays"), ignore_errors=True)
+        sh("git checkout -- evidence", ROOT)     # evidence written against a seeded tree is never kept
     report["checks"] = results
     report["caught_by_own_check"] = results[pid]["exit"] == 1 and results[pid]["violation_line"] is not None
     report["caught_with_failing_input"] = report["caught_by_own_check"] and "no-failing-input-found" not in (results[pid]["violation_line"] or "")
